@@ -201,6 +201,9 @@ type Variant struct {
 	Late    bool   // the failure strikes after a part of the statement's work has been done (a later record, a later SET item, a later VALUES row, a joined row after the first)
 	Retry   Op     // the corrected statement
 	NewFile string // CREATE TABLE: the file that must not exist afterwards
+	// NeedsHandler: the statement fails only while the transaction holds a file handler of this table (base name);
+	// the runner asks csvq's container and skips the variant otherwise
+	NeedsHandler string
 }
 
 // intLike returns the integer a cell holds when arithmetic treats it as one.
@@ -485,6 +488,12 @@ func Variants(s *State, thorough bool) []Variant {
 		Op: &Create{Id: "v", File: "x.csv", Sel: &Select{Raw: "SELECT * FROM nosuch"}, Fails: always}, Retry: okCreate})
 	add(Variant{Id: "create-existing-file", NewFile: "",
 		Op: &Create{Id: "v", File: "t.csv", Cols: []string{"c1"}, Fails: always}, Retry: okCreate})
+	// a name that differs only in letter case from a file the transaction holds: csvq keys its handlers by the
+	// upper-cased path and refuses ("already opened") after the lock file and the empty new file were created
+	add(Variant{Id: "create-other-case-of-held-file", Late: true, NeedsHandler: "t.csv",
+		Op: &Create{Id: "v", File: "T.csv", Cols: []string{"c1", "c2"}, Fails: always}, Retry: okCreate})
+	add(Variant{Id: "create-select-other-case-of-held-file", Late: true, NeedsHandler: "t.csv",
+		Op: &Create{Id: "v", File: "T.CSV", Sel: &Select{Raw: "SELECT 1 AS c1, 2 AS c2"}, Fails: always}, Retry: okCreate})
 	add(Variant{Id: "create-select-subquery-many", Late: true, NewFile: "x.csv",
 		Op: &Create{Id: "v", File: "x.csv", Cols: []string{"c1"}, Sel: &Select{Exprs: []Expr{ScalarSub{Tab: "u", Col: "k"}}, From: "u"}}, Retry: okCreate})
 	if ks, _, label := strikePositions(s.Tab("t"), "a"); len(ks) > 0 {
